@@ -476,12 +476,18 @@ Proof.
 Qed.
 
 (* ---------- the generated URI table ---------- *)
+Lemma cert_split (o : option (re * bool)) (a : re -> bool) (b : bool) :
+  match o with Some (R, _) => a R && b | None => false end = true -> exists R nf, o = Some (R, nf) /\ a R = true /\ b = true.
+Proof.
+  destruct o as [[R nf]|]; [|discriminate]. intros H. apply andb_true_iff in H. destruct H as [H1 H2]. exists R, nf. auto.
+Qed.
+
 Lemma complete_of_cert2 t : complete_cert2 t = true ->
   forall s, bytes_ok s -> matches (rfc t) s -> uri_accepts t s.
 Proof.
-  unfold complete_cert2, uri_re. intros Hc s Hs M.
-  destruct (re_of uri_table uri_mx uri_re_depth (uri_root t)) as [[R nf]|] eqn:ER; [|discriminate].
-  apply land_iff in Hc. destruct Hc as [Hi Hcc].
+  intros Hc s Hs M.
+  destruct (cert_split (uri_re t) (fun R => incl_auto CF (rfc t) R) (cc2 uri_table uri_mx uri_re_depth (uri_root t) Eps) Hc)
+    as [R [nf [ER [Hi Hcc]]]].
   assert (MR : matches R s) by (eapply incl_auto_sound; eauto).
   destruct (cc2_accepts uri_table uri_mx uri_table_wf uri_re_depth (uri_root t) R nf s Hcc ER Hs MR) as [f [c' [evs E]]].
   exists f, c', evs. exact E.
